@@ -8,7 +8,7 @@ rc=0; shopt -s nullglob
 for p in harmless/${1:-*}/*.patch; do
   ID=$(basename $(dirname $p))
   rm -rf "$SCR/repo"; mkdir -p "$SCR/repo"
-  (cd /repo && git ls-files -z --cached --others --exclude-standard | xargs -0 cp --parents -t "$SCR/repo" 2>/dev/null)
+  (cd "${VERIF_REPO:-/repo}" && git ls-files -z --cached --others --exclude-standard | xargs -0 cp --parents -t "$SCR/repo" 2>/dev/null)
   if ! (cd "$SCR/repo" && patch -p1 -s < "/verif/$p"); then echo "HARMLESS $p: patch does not apply (skipped)"; continue; fi
   if ! (cd "$SCR/repo" && GOFLAGS=-mod=mod GOPROXY=off go build ./... >/dev/null 2>&1); then echo "HARMLESS $p: does not compile (bad patch)"; rc=3; continue; fi
   out=$(bin/govc verify -property "$ID" -tier quick -repo "$SCR/repo" -noevidence 2>&1); c=$?
